@@ -548,6 +548,7 @@ class AsyncClient(base_client.BaseClient):
             self.logger.info('Waiting for write loop task to end')
             await self.write_loop_task
         if self.state == 'connected':
+            self.state = 'disconnecting'
             await self._trigger_event(
                 'disconnect', self.reason.TRANSPORT_ERROR, run_async=False)
             try:
@@ -603,6 +604,7 @@ class AsyncClient(base_client.BaseClient):
             self.logger.info('Waiting for write loop task to end')
             await self.write_loop_task
         if self.state == 'connected':
+            self.state = 'disconnecting'
             await self._trigger_event(
                 'disconnect', self.reason.TRANSPORT_ERROR, run_async=False)
             try:
